@@ -74,6 +74,7 @@ ANSISTR_METHODS = {
     'apply_formatting_for_match': (['settings', 'any', 'int'], {}, None, True),
     'format_matching': (['str', 'settings'], {'regex': 'bool', 'match_case': 'bool', 'count': 'int'}, None, True),
     'unformat_matching': (['str', 'settings'], {'regex': 'bool', 'match_case': 'bool', 'count': 'int'}, None, True),
+    'clear_formatting': ([], {}, None, True),
     'capitalize': ([], {}, None, False),
     'casefold': ([], {}, None, False),
     'center': (['int', 'char'], {}, None, False),
@@ -111,7 +112,7 @@ ANSISTR_METHODS = {
 }
 # handled by their own groups or outside the claim: __new__ (Z1), __iter__ (Z3), join (Z4), clear_formatting (Z5),
 # split/rsplit/splitlines (Z6, list valued), base_str (property), __eq__ (documented to compare renderings), encode
-ANSISTR_OTHER = ('__new__', '__iter__', 'join', 'clear_formatting', 'split', 'rsplit', 'splitlines', 'base_str', '__eq__',
+ANSISTR_OTHER = ('__new__', '__iter__', 'join', 'split', 'rsplit', 'splitlines', 'base_str', '__eq__',
                  'encode')
 
 CL_Z2 = [
@@ -200,3 +201,132 @@ def z1_task(envr, item):
 GROUPS.append(Group('Z1', 'AnsiStr(source, *settings) wraps a private copy of what AnsiString(source, *settings) builds; its str '
                     'payload is its own rendering', ['C13', 'C08'], 'U', ['AnsiStr.__new__'], z1_items, z1_task,
                     bounds='none: source str / abstract AnsiString / AnsiStr, 0-2 settings arguments', assumes=['V5']))
+
+
+# ============================================================================================= Z5: clear_formatting
+# AnsiStr.clear_formatting on texts that may contain ESC [ m (concrete length, symbolic characters): the result must be
+# what AnsiString.clear_formatting leaves on a copy - in particular the same text.
+CL_Z5 = [Clause('same-as-AnsiString-counterpart-wrapped-as-AnsiStr', 'post_ansistr_equiv'),
+         Clause('receiver-untouched', 'post_ansistr_receiver_untouched')]
+ESC_ALPHABET = (27, 91, 109, 49, 120)
+
+
+def z5_items(tier):
+    return [[n] for n in range(0, (4 if tier == 'quick' else 6))]
+
+
+def z5_task(envr, item):
+    n = item[0]
+
+    def body(c):
+        cps = []
+        for i in range(n):
+            cp = c.named_int('c%d' % i)
+            c.assume(b_or(*[i_cmp('==', cp, a) for a in ESC_ALPHABET]))
+            cps.append(cp)
+        text = sym.s_from_chars(cps)
+        inner = PObj('AnsiString', {'_fmts': PDict(), '_s': text})
+        if n > 0:
+            S = c.opaque_text('Sx', 1)
+            S.kind = 'setting'
+            x = PObj('AnsiSetting', {'_str': sym.mk_rope([('lit', '31')])})
+            inner.attrs['_fmts'] = PDict([(0, PObj('_AnsiSettingPoint', {'add': PList([x]), 'rem': PList()})),
+                                          (n, PObj('_AnsiSettingPoint', {'add': PList(), 'rem': PList([x])}))])
+        I = envr.interp
+        pay = I.call_name('AnsiString.to_str', inner)
+        x = PObj('AnsiStr', {'__payload__': pay, '_s': inner})
+        before = heap.snapshot(inner)
+        fields = {'mname': 'clear_formatting', 'margs': (), 'mkwargs': PDict(), 'mutator': True, 'wrapped': inner,
+                  'wrapped_before': before}
+        run_contract(envr, c, 'AnsiStr.clear_formatting', x, [], {}, CL_Z5, fields=fields)
+    return ContractRun(body, CL_Z5)
+
+
+GROUPS.append(Group('Z5', 'AnsiStr.clear_formatting keeps the text (also when it contains ESC [ ... m) and drops all settings',
+                    ['C13', 'C07'], 'B', ['AnsiStr.clear_formatting', 'AnsiString.clear_formatting'], z5_items, z5_task,
+                    bounds='text length L<=3/5 over the characters ESC [ m 1 x (symbolic), one setting over the whole text'))
+
+
+# ============================================================================================= V3: in-place switch
+CL_V3 = [
+    Clause('inplace-returns-self-else-a-new-object', 'post_inplace_returns_self'),
+    Clause('copying-form-leaves-receiver-untouched', 'post_noinplace_receiver_untouched'),
+    Clause('inplace-on-a-copy-equals-copying-form', 'post_inplace_agrees'),
+    Clause('inplace-on-a-copy-same-settings-per-character', 'post_inplace_agrees_view', forall='inplace_k_range'),
+]
+# method -> (argument kinds before `inplace`, argument kinds after it, receiver kind)
+V3_METHODS = {
+    'capitalize': ([], [], 'abs'), 'casefold': ([], [], 'abs'), 'lower': ([], [], 'abs'), 'upper': ([], [], 'abs'),
+    'swapcase': ([], [], 'abs'), 'title': ([], [], 'abs'),
+    'clip': (['optint', 'optint'], [], 'abs'),
+    'lstrip': (['optchars'], [], 'abs-chars'), 'rstrip': (['optchars'], [], 'abs-chars'), 'strip': (['optchars'], [], 'abs-chars'),
+    'removeprefix': (['str'], [], 'abs'), 'removesuffix': (['str'], [], 'abs'),
+    'replace': (['str', 'operand', 'smallcount'], [], 'abs'),
+    'expandtabs': (['smallint'], [], 'abs'),
+    'center': (['int', 'char'], ['bool'], 'table'), 'ljust': (['int', 'char'], ['bool'], 'table'),
+    'rjust': (['int', 'char'], ['bool'], 'table'), 'zfill': (['int'], [], 'table'),
+}
+RAISES_V3 = {'ValueError': None, 'TypeError': None}
+
+
+def v3_items(tier):
+    out = []
+    for m in sorted(V3_METHODS):
+        kind = V3_METHODS[m][2]
+        if kind == 'table':
+            for sh in shapes.table_shapes(2, 2, 2, 2) if tier == 'quick' else shapes.table_shapes(3, 2, 2, 2):
+                out.append([m, sh])
+        elif kind == 'abs-chars':
+            for n in range(0, 3 if tier == 'quick' else 4):
+                out.append([m, n])
+        else:
+            out.append([m, None])
+    return out
+
+
+def v3_task(envr, item):
+    mname, extra = item
+    pre, post, kind = V3_METHODS[mname]
+
+    def arg(c, k, name):
+        if k == 'smallcount':
+            return [0, 1, 2][c.choice(3)]
+        if k == 'smallint':
+            return [0, 1, 4][c.choice(3)]
+        if k == 'optchars':
+            if c.choice(2):
+                return None
+            return sym.s_from_chars([c.named_int('set0', 32, 122)])
+        return mk_arg(c, k, name)
+
+    def body(c):
+        if kind != 'table':
+            ab.install(c)
+        if kind == 'table':
+            s, info = shapes.build_ansistring(c, extra, 'a')
+        elif kind == 'abs-chars':
+            cps = [c.named_int('c%d' % i, 9, 122) for i in range(extra)]
+            tb = ab.fresh_table(c, 'tbl_a')
+            c.abs_tables = getattr(c, 'abs_tables', []) + [tb]
+            s = PObj('AnsiString', {'_fmts': tb, '_s': sym.s_from_chars(cps)})
+            c.assume(ab.WFP(tb.term, sym.Z(len(cps))))
+        else:
+            s, info = ab.abstract_ansistring(c, 'a')
+        a1 = [arg(c, k, 'p%d' % i) for i, k in enumerate(pre)]
+        inplace = c.named_bool('inplace')
+        a2 = [arg(c, k, 'q%d' % i) for i, k in enumerate(post)]
+        margs = tuple(a1)
+        if a2:
+            # the clause re-runs the method with inplace=True: later positional parameters are passed by keyword
+            pass
+        fields = {'mname': mname, 'margs': margs}
+        run_contract(envr, c, 'AnsiString.' + mname, s, a1 + [inplace] + a2, {}, CL_V3 if not a2 else CL_V3[:2],
+                     fields=fields, raises=RAISES_V3)
+    return ContractRun(body, CL_V3 if not post else CL_V3[:2], raises=RAISES_V3, use=('ABS', 'SL'))
+
+
+GROUPS.append(Group('V3', 'in-place variants return the receiver and equal the copying variant; the copying variant leaves the '
+                    'receiver untouched', ['C08', 'C13'], 'B', ['AnsiString.' + m for m in sorted(V3_METHODS)], v3_items, v3_task,
+                    bounds='abstract table (unbounded) for the methods built on slicing/concatenation; concrete tables with '
+                    'N<=2/3 change points for the padding methods; strip family on texts of length <=2/3; replace with '
+                    'count in {0,1,2}', assumes=['G2', 'A1', 'V5', 'SL']))
